@@ -20,6 +20,7 @@ inductive Op where
   | pop
   | setFileName (n : Bytes)
   | clear
+  | setExtension (x : Bytes)
   deriving Repr
 
 def stdPush (s p : Bytes) : Bytes :=
@@ -41,6 +42,13 @@ def stdStep (s : Bytes) : Op → Bytes × Bool
     let s' := if (fileName .unix s).isSome then (stdPop s).1 else s
     (stdPush s' n, true)
   | .clear => ([], true)
+  | .setExtension x =>
+    -- std: no file stem => false; otherwise truncate right after the file stem (pointer arithmetic on
+    -- the stem slice), then append `.` and the extension when it is non-empty
+    match fileName .unix s, fileStem .unix s with
+    | some f, some stem =>
+      ((s.take (lastCompEnd .unix s - f.length + stem.length)) ++ (if x = [] then [] else DOT :: x), true)
+    | _, _ => (s, false)
 
 /-- the same mutation on a typed-path `UnixPathBuf` (the model) -/
 def modelStep (m : Bytes) : Op → Bytes × Bool
@@ -48,6 +56,7 @@ def modelStep (m : Bytes) : Op → Bytes × Bool
   | .pop => pop .unix m
   | .setFileName n => (setFileName .unix m n, true)
   | .clear => ([], true)
+  | .setExtension x => setExtension .unix m x
 
 def runStd (s : Bytes) : List Op → List (Bytes × Bool)
   | [] => []
